@@ -64,3 +64,59 @@ Proof.
   intros buf Hwf H1. split; [apply (wf1_wf_chain buf Hwf H1)|apply (chain_single buf Hwf H1)].
 Qed.
 Print Assumptions c09_chain_extends_single.
+
+(* ---- libwifi_parse_radiotap_info AS TRANSLATED (Gen/Sites.v): the header guards (frame_len < 8, it_len < 8 or > 255 refuse having called nothing but the memset; the iterator's
+   error is returned as it is), ONE turn of the field switch for every field number (the members assigned are exactly the little-endian values at the field's sub-offsets - CHANNEL
+   0/2, MCS 0/1/2, TIMESTAMP 0/8/10/11 ... - and with the field's last octet unreadable the turn is stuck), that turn refines the Spec's per-field decoder (s_apply) and the model's
+   (rt_field) for every field number and contents, and the loop ends with 0 when the iterator's next answers non-zero.  The iterator routines themselves contain goto and are not
+   executed by exec: their answers are unknowns here and they stay tied by the correspondence.  rt_turn_env, rt_turn_calls, rt_entry_env, info_rel ... are defined in
+   Proofs/CodeRadiotapParse.v. ---- *)
+From Coq Require Import String.
+From LW Require Import Base.Bytes Base.CExpr Gen.Sites Spec.CodeSpec Proofs.CodeRadiotapParse.
+Local Open Scope string_scope.
+Local Open Scope Z_scope.
+
+Theorem c09_code_rtap_header_guards : forall buf a rho F,
+  wfbytes buf -> 0 < a -> a + zlen buf < 2 ^ 62 -> rho "frame" = a -> rho "frame_len" = zlen buf ->
+  let m := mem_at a buf in
+  let r0 := wrap (mkty true 32) (rho "ret:ieee80211_radiotap_iterator_init") in
+  let run := exec (11 + F) m rho [] body_libwifi_parse_radiotap_info in
+  if (zlen buf <? 8) || (le16 buf 2 <? 8) || (255 <? le16 buf 2) then
+    observe run = Some (Some (-22), [rt_memset_call rho])
+  else if negb (r0 =? 0) then
+    observe run = Some (Some r0, [rt_memset_call rho; rt_init_call rho a (zlen buf)])
+  else
+    run = exec F m (rt_entry_env rho a (le16 buf 2)) [rt_memset_call rho; rt_init_call rho a (zlen buf)] [rt_loop; rt_ret0].
+Proof. exact code_rtap_header_guards. Qed.
+Print Assumptions c09_code_rtap_header_guards.
+
+Theorem c09_code_rtap_switch_field : forall p fb rho tr k F,
+  0 < p -> p + zlen fb < 2 ^ 62 -> wfbytes fb -> rho "it.this_arg" = p ->
+  wrap (mkty true 32) (rho "it.this_arg_index") = k -> rt_size k <= zlen fb -> (30 <= F)%nat ->
+  exec F (mem_at p fb) rho tr [rt_switch] = Fell (rt_turn_env k fb rho) (tr ++ rt_turn_calls k p fb rho)%list.
+Proof. exact code_rtap_switch_field. Qed.
+Print Assumptions c09_code_rtap_switch_field.
+
+Theorem c09_code_rtap_switch_refines_spec : forall fb rho k x sk,
+  k <> 31 -> info_rel rho x sk ->
+  info_rel (rt_turn_env k fb rho) (fst (s_apply fb (x, sk) (k, 0))) (snd (s_apply fb (x, sk) (k, 0))).
+Proof. exact code_rtap_switch_refines_spec. Qed.
+Print Assumptions c09_code_rtap_switch_refines_spec.
+
+Theorem c09_code_rtap_switch_refines_model : forall fb rho k x sk,
+  wfbytes fb -> 0 <= k < 23 -> snd (table_entry k) <= zlen fb -> info_rel rho x sk ->
+  exists x' sk', rt_field (rd_strict fb) x sk k 0 = Done (x', sk') /\ info_rel (rt_turn_env k fb rho) x' sk'.
+Proof. exact code_rtap_switch_refines_model. Qed.
+Print Assumptions c09_code_rtap_switch_refines_model.
+
+Theorem c09_code_rtap_loop_exit : forall m rho tr rho2 tr2 F,
+  wrap (mkty true 32) (rho "ret") = 0 ->
+  exec (5 + F) m rho tr [rt_switch] = Fell rho2 tr2 ->
+  let rn := wrap (mkty true 32) (rho2 "ret:ieee80211_radiotap_iterator_next") in
+  rn <> 0 ->
+  let rho3 := upd (clobber rho2 (length (tr2 ++ [rt_next_call rho2])) "it") "ret" rn in
+  exec (6 + F) m rho tr [rt_loop; rt_ret0] = Returned (Some 0) rho3 (tr2 ++ [rt_next_call rho2])%list /\
+  (forall x, String.prefix "it" x = false -> x <> "ret" -> rho3 x = rho2 x).
+Proof. exact code_rtap_loop_exit. Qed.
+Print Assumptions c09_code_rtap_loop_exit.
+
